@@ -221,6 +221,14 @@ Definition is_leaf (s : stmt) : bool :=
 Definition leaf_sel (s : stmt) : list seg :=
   match s with SEq sel _ | SCmp _ sel _ | SLike sel _ => sel | _ => [] end.
 
+Fixpoint has_like (s : stmt) : bool :=
+  match s with
+  | SLike _ _ => true
+  | SNot s | SAll _ s | SAny _ s => has_like s
+  | SAnd ss | SOr ss => (fix go (l : list stmt) : bool := match l with [] => false | x :: r => has_like x || go r end) ss
+  | _ => false
+  end.
+
 Definition eng_policy (inp impl : node) : verdict :=
   match inp with
   | List [Str op; List pol; d] =>
@@ -245,7 +253,9 @@ Definition eng_policy (inp impl : node) : verdict :=
                                   else true
                          | _ => true
                          end in
-          {| model_obs := m; violated := c11 (wellformed && ok_classical && ok_imp && ok_leaf) |}
+          (* a like statement whose verdict is not the model's: the glob language is not what decides (C13) *)
+          let c13 := if existsb has_like p && negb (node_eqb impl m) then [lit "C13"] else [] in
+          {| model_obs := m; violated := c11 (wellformed && ok_classical && ok_imp && ok_leaf) ++ c13 |}
       end
   (* two policies that must agree (operands permuted) or two data values (elements permuted) *)
   | List [Str op; List pol1; List pol2; d1; d2] =>
@@ -350,7 +360,8 @@ Definition eng_did (inp impl : node) : verdict :=
         | List [Str k] => str_eqb k (lit "err") && negb (is_ok (did_parse text))     (* rejection of a text the parser theorem accepts is a loss too *)
         | List [Str _; Str printed; Str cls; Bool can] =>
             is_ok (did_parse text) && str_eqb printed text &&
-            negb (str_eqb cls (lit "panic")) && (negb (str_eqb cls (lit "ok")) || can)
+            (* a key or an error, the same at every call ("unstable" = calls disagreed), canonical when a key *)
+            (str_eqb cls (lit "ok") || str_eqb cls (lit "err")) && (negb (str_eqb cls (lit "ok")) || can)
         | _ => false
         end in
       {| model_obs := m; violated := c16 spec_ok |}
@@ -552,6 +563,12 @@ Definition eng_cid (inp impl : node) : verdict :=
   | List [Str op; Bytes digest] =>
       let c := Bytes (cid_bytes digest) in
       {| model_obs := List [c; c; c; c]; violated := c08 (node_eqb impl (List [c; c; c; c])) |}
+  (* a sealed token of a given size, alone (clean = true) or followed by further bytes: every sealed entry
+     point accepts it under the content address of the input, or refuses it *)
+  | List [Str op; Int size; Bool clean] =>
+      let w := Str (if clean then lit "accepted under the cid of the input" else lit "refused") in
+      let m := List [w; w; w; w] in
+      {| model_obs := m; violated := c08 (node_eqb impl m) |}
   (* a re-encoding of a sealed token: [variant bytes; decodes to the same data as the original;
      same signed content; original bytes] -> accepted? *)
   | List [Str op; Bytes variant; Bool same_data; Bool same_signed; Bytes original] =>
